@@ -93,6 +93,8 @@ package vm
 // rvComparable(v): reflect.Value.Comparable - the DYNAMIC value can be compared / hashed (a slice wrapped in an interface
 // cannot, although its static type interface{} can); hashableKey(k): using k as a map key does not panic
 //@ spec fun rvComparable(v reflect.Value) bool
+// rvIndexV(v, i): element i of a slice, array or string value (what reflect.Value.Index returns)
+//@ spec fun rvIndexV(v reflect.Value, i int) reflect.Value
 //@ spec fun hashableKey(k reflect.Value) bool = (rvKind(k) == reflect.Interface && rvIsNil(k)) || rvComparable(k)
 //@ spec fun chanClosedOrNil(v reflect.Value) bool
 // calleeMayPanic(f): calling the function value f may panic — true of any host function, unknown to the verifier:
